@@ -4,7 +4,8 @@ From Verif Require Export Lib.Base Model.C05_Proposer.
 Record case := {
   c_id : N;
   c_cfg : config;
-  c_env : env;
+  c_env : env;                      (* the scripted answers *)
+  c_lat : lats;                     (* how long each provider takes to give its answer *)
   c_duty : duty;                    (* the duty before Prepare *)
   c_prepare : bool;                 (* Prepare was called (otherwise the duty was filled in by hand) *)
   (* observed *)
@@ -12,7 +13,16 @@ Record case := {
   c_prep_ok : bool;                 (* Prepare returned nil *)
   c_post_account : option N;        (* the account the duty carries when it is handed to Propose *)
   c_post_randao : N;                (* the RANDAO reveal it carries then *)
-  c_obs : result                    (* what Propose asked the environment, when, and what it submitted *)
+  c_cut : cuts;                     (* which answers the providers were seen to cut short with the context's error *)
+  c_times : list N;                 (* the instant of each request of [o_events c_obs] *)
+  c_live : list bool;               (* ... and whether the context it came with was still alive *)
+  c_t0 : N;                         (* the instant the last of these answers was given *)
+  c_obs : result;                   (* what Propose asked the environment and what it submitted; the times of
+                                       the relay calls, of the submission and [o_ret] in ms after [c_t0];
+                                       [o_ret]: the instant Propose returned or, if it submitted, handed the
+                                       block to the submitter *)
+  c_ret : N;                        (* the instant Propose returned *)
+  c_sub_cut : bool                  (* the submitter was seen to cut the submission short with the context's error *)
 }.
 
 (* ------------------------------------------------------------------------------------------- *)
@@ -65,25 +75,51 @@ Definition result_eqb (a b : result) : bool :=
 (* ------------------------------------------------------------------------------------------- *)
 (* agree: the model run on the case's input does what the implementation was seen to do *)
 
-(* the relay plans of the case, as the model builds them (for the tie test only) *)
-Definition case_plans (c : case) : list (list call) :=
-  match auction_results (c_env c) with
+(* the relay plans as the model builds them on the answers [e] (for the tie test only) *)
+Definition plans_of (cf : config) (e : env) : list (list call) :=
+  match auction_results e with
   | Some (winners, all) =>
-      let cands := candidates (c_cfg c) winners all in
-      plans_from (e_deadline (c_env c)) cands 0 (e_relays (c_env c))
+      let cands := candidates cf winners all in
+      plans_from (e_deadline e) cands 0 (e_relays e)
   | None => []
   end.
 
+(* nothing is decided by Go's scheduler: no answer of a step is due at the instant the context ends, no
+   two relay goroutines act at one instant *)
+Definition tie_free_t (cf : config) (e : env) (l : lats) (m : timed) : bool :=
+  let e1 := apply_cuts e (t_cuts m) (e_deadline e - t_t0 m) in
+  negb (steps_tie e l)
+  && (* relay goroutines: only where the model has relays asked at all *)
+     (is_nil (concat (o_unblind (t_res m))) || tie_free (e_deadline e1) (plans_of cf e1))
+  && match o_submit (t_res m) with
+     | Some (s, _) => negb (step_tie (e_deadline e) (s + t_t0 m) (l_submit l))
+     | None => true
+     end.
+
+Definition case_model (c : case) : timed :=
+  propose_t (c_cfg c) (c_env c) (c_lat c) (duty_after (c_cfg c) (c_env c) (c_duty c) (c_prepare c)).
+
+Definition case_tie_free (c : case) : bool := tie_free_t (c_cfg c) (c_env c) (c_lat c) (case_model c).
+
+Definition timed_eqb (m : timed) (c : case) : bool :=
+  result_eqb (t_res m) (c_obs c)
+  && list_eqb N.eqb (t_times m) (c_times c)
+  && list_eqb bool_eqb (t_live m) (c_live c)
+  && (t_t0 m =? c_t0 c)
+  && (t_ret m =? c_ret c)
+  && bool_eqb (t_sub_cut m) (c_sub_cut c).
+
 Definition agree (c : case) : bool :=
-  let '((pevs, pok), res) := run (c_cfg c) (c_env c) (c_duty c) (c_prepare c) in
+  let '((pevs, pok), _) := run (c_cfg c) (c_env c) (c_duty c) (c_prepare c) in
   let D := duty_after (c_cfg c) (c_env c) (c_duty c) (c_prepare c) in
   events_eqb pevs (c_prep_events c)
   && bool_eqb pok (c_prep_ok c)
   && option_eqb N.eqb (d_account D) (c_post_account c)
   && (d_randao D =? c_post_randao c)
-  && (* two relay goroutines acting at one fake instant: Go's scheduler decides, the model does not;
-        the generator avoids it, and such a case is left to P_b *)
-     (negb (tie_free (e_deadline (c_env c)) (case_plans c)) || result_eqb res (c_obs c)).
+  && (* an answer due at the very end of the context, two relay goroutines acting at one fake instant:
+        Go's scheduler decides, the model does not; the generator avoids it, and such a case is left
+        to P_b *)
+     (negb (case_tie_free c) || timed_eqb (case_model c) c).
 
 (* ------------------------------------------------------------------------------------------- *)
 (* P_b: the property itself on the input and the OBSERVED behaviour; the model's [prepare], [propose]
@@ -308,7 +344,7 @@ Definition unready_silent (c : case) : bool :=
   || (is_nil (o_events (c_obs c)) && is_nil (concat (o_unblind (c_obs c)))
       && match o_submit (c_obs c) with None => true | Some _ => false end).
 
-Definition P_b (c : case) : bool :=
+Definition P_core (c : case) : bool :=
   negb (o_panic (c_obs c))
   && forallb (randao_event_ok c) (c_prep_events c)
   && Nat.leb (count_events ev_sign_randao (c_prep_events c)) 1
@@ -321,6 +357,52 @@ Definition P_b (c : case) : bool :=
   && other_slot_refused c
   && unready_silent c
   && prepared_duty_own c.
+
+(* ------------------------------------------------------------------------------------------- *)
+(* Time.  The clauses above are evaluated on the answers the providers were SEEN to give ([actual]: a
+   scripted answer that the provider cut short with the context's error is that error), and with the
+   relay calls and the submission timed from the instant the last sequential answer was given. *)
+Definition actual (c : case) : case :=
+  {| c_id := c_id c; c_cfg := c_cfg c;
+     c_env := apply_cuts (c_env c) (c_cut c) (e_deadline (c_env c) - c_t0 c);
+     c_lat := zero_lats; c_duty := c_duty c; c_prepare := c_prepare c;
+     c_prep_events := c_prep_events c; c_prep_ok := c_prep_ok c;
+     c_post_account := c_post_account c; c_post_randao := c_post_randao c;
+     c_cut := no_cuts; c_times := []; c_live := []; c_t0 := 0;
+     c_obs := c_obs c; c_ret := 0; c_sub_cut := false |}.
+
+(* 6b. every request Propose makes before the deadline of the context it was given comes with a context
+       that is still alive: a step that failed or was slow (graffiti lookup, auction) takes nothing but
+       its own time from the steps after it *)
+Fixpoint live_ok (D : N) (ts : list N) (lv : list bool) : bool :=
+  match ts, lv with
+  | t :: ts', b :: lv' => (negb (t <? D) || b) && live_ok D ts' lv'
+  | [], [] => true
+  | _, _ => false
+  end.
+
+(* 6c. when the scripted time line up to the signature fits into the context Propose was given, the
+       beacon node, the domain provider and the account are left the time to give their answers --
+       however long the graffiti provider and the auctioneer took, and whether or not they were left
+       theirs: slow graffiti or a slow auction degrades, it does not skip the proposal *)
+Definition in_budget_not_cut (c : case) : bool :=
+  negb (budget (c_env c) (c_lat c) <? e_deadline (c_env c))
+  || negb (x_proposal (c_cut c) || x_domain (c_cut c) || x_sign (c_cut c)).
+
+(* 6d. and the submitter is left the time the context has: a block handed to it at [s] whose
+       submission takes [l_submit] is cut short only if that is past the deadline *)
+Definition submit_not_cut (c : case) : bool :=
+  match o_submit (c_obs c) with
+  | Some (s, _) => negb (c_sub_cut c) || negb (s + c_t0 c + l_submit (c_lat c) <? e_deadline (c_env c))
+  | None => negb (c_sub_cut c)
+  end.
+
+Definition P_b (c : case) : bool :=
+  P_core (actual c)
+  && live_ok (e_deadline (c_env c)) (c_times c) (c_live c)
+  && Nat.eqb (length (c_times c)) (length (o_events (c_obs c)))
+  && in_budget_not_cut c
+  && submit_not_cut c.
 
 Definition mismatches (cs : list case) : list N := failing_ids c_id agree cs.
 Definition violations (cs : list case) : list N := failing_ids c_id P_b cs.
